@@ -274,6 +274,33 @@ def run_block(ctx, case):
     ctx.case(case, any(f is None for it in its for f in it["frames"]), labels=sorted(labs))
 
 
+def coupled_strategy(tier):
+    """force/torque and platform-data blocks whose three coupled arrays arrive in DIFFERENT dtypes; the application point lies on a grid
+    (small integers / halves) so that it is exactly representable in narrow types (float16, int16, int32, uint8) too"""
+    import struct
+
+    grid = st.sampled_from([0, 1, 2, 3, 5, 10, 100, 549, 1000, -1, -2, -7, -100, 0.5, 1.5, -0.25, 2048]).map(lambda v: struct.unpack("<I", struct.pack("<f", v))[0])
+
+    @st.composite
+    def cases(draw):
+        t = draw(st.sampled_from(["force3D", "force3D", "platData"]))
+        spec = draw(specs.SPEC[t](tier, 1))
+        nap = 3 if t == "force3D" else 2
+        ints = draw(st.booleans())
+        for it in codec.items(spec):
+            fr = it["frames"]
+            for i, f in enumerate(fr):
+                if f is None and ints:
+                    f = fr[i] = [draw(specs.f32bits) for _ in range(specs.PER_FRAME[t])]   # integer arrays cannot carry gaps
+                if f is not None:
+                    f[:nap] = [draw(grid) for _ in range(nap)]
+        ap = draw(st.sampled_from(["<i2", "<i4", "<i8", "u1", "<f2"] if ints else ["<f2", "<f2", ">f2", "<f4"]))
+        hints = dict(draw(specs.HINTS), coupled=[ap, draw(st.sampled_from(["<f4", "<f8", ">f8", "<f8"])), draw(st.sampled_from(["<f4", "<f8", ">f4"]))])
+        return {"spec": spec, "hints": hints}
+
+    return cases()
+
+
 SUBS = [
     Sub("masks-exhaustive", run_mask, kind="enum", enumerate=enum_masks, shards=(8, 16),
         rule="all 2^n presence masks, n = 1..10 (quick) / 1..14 (thorough), x {3D marker, EMG signal, force/torque track, platform data}; finite, enumerated completely"),
@@ -310,6 +337,9 @@ def run_boundary(ctx, case):
 
 SUBS.append(Sub("boundary-masks", run_boundary, kind="enum", enumerate=enum_boundary, shards=(12, 16),
                 rule="single tracks of B+50 frames with gaps placed exactly before / after / across frame B, B in {256, 1024, 4096, 65536} (16384 for force/torque); finite, enumerated"))
+SUBS.append(Sub("coupled-dtypes", run_block, strategy=coupled_strategy, budget=(300, 8000), shards=(2, 8),
+                rule="force/torque and platform-data blocks whose coupled arrays come in different dtypes (application point as int16/32/64, uint8, float16 on an exactly "
+                     "representable grid; force / torque as float32/64 in either byte order): run tables and every present value after decode"))
 SUBS.append(Sub("long-tracks", run_block, strategy=specs.long_block_case, budget=(16, 400), shards=(8, 16),
                 rule="blocks with 1-2 tracks of 257 .. 131079 frames; gaps that start or end exactly at 256 / 1024 / 4096 / 8192 / 16384 / 65536 / 131072, "
                      "every second..fifth frame missing (thousands of runs), sparse gaps; all input dtypes / byte orders / layouts"))
